@@ -61,6 +61,8 @@ class Kernel:
         self.by_id = {}
         self.by_name = {}
         self._loop_ids = None
+        self._loop_nodes = None
+        self._loop_remap = None
 
     # ---- identification
     @property
@@ -137,15 +139,16 @@ class Kernel:
                         continue
                     yield from walk_once(c)
 
-        if self._loop_ids is None:
-            self._loop_ids = {}
-            k = 0
-            for n in walk_once(self.fn):
-                if n.get("kind") in self.LOOP_KINDS:
-                    self._loop_ids[n["id"]] = k
-                    k += 1
+        self._ensure_loops()
         if nid in self._loop_ids:
-            return self._loop_ids[nid]
+            k = self._loop_ids[nid]
+            if self._loop_remap is not None:
+                if self._loop_remap.get(k) is None:
+                    raise Gap("loop #%s at line %s (%s) was added or moved since the contract's invariants were written "
+                              "(contracts/loop_baseline.json): it has no invariant of its own" % (
+                                  k, extract.line_of(node), " ".join((self.loop_header(node) or "").split())[:80]))
+                return self._loop_remap[k]
+            return k
         # a loop in an inlined helper: find the enclosing function on the frame stack
         for fr in reversed(ctx.frames):
             fn = fr.fn
@@ -163,6 +166,71 @@ class Kernel:
     # concrete counterexample (reported as a violation); a bounded pass proves nothing and the gap stands.
     bounded_fallback = None
     bounded_mode = None
+
+    _baseline = None
+
+    @classmethod
+    def load_baseline(cls):
+        if Kernel._baseline is None:
+            import json
+            path = os.path.join(extract.VERIF, "contracts", "loop_baseline.json")
+            try:
+                Kernel._baseline = json.load(open(path))
+            except OSError:
+                Kernel._baseline = {}
+        return Kernel._baseline
+
+    @staticmethod
+    def _walk_once(n):
+        # clang prints a lambda's body twice (inside its closure class and again as a direct
+        # child of the LambdaExpr); the interpreter executes the closure-class copy
+        yield n
+        for c in n.get("inner", ()) or ():
+            if isinstance(c, dict):
+                if n.get("kind") == "LambdaExpr" and c.get("kind") == "CompoundStmt":
+                    continue
+                yield from Kernel._walk_once(c)
+
+    def _ensure_loops(self):
+        if self._loop_ids is None:
+            self._loop_ids = {}
+            k = 0
+            nodes = []
+            for n in self._walk_once(self.fn):
+                if n.get("kind") in self.LOOP_KINDS:
+                    self._loop_ids[n["id"]] = k
+                    nodes.append(n)
+                    k += 1
+            self._loop_nodes = nodes
+            self._loop_remap = self.align_with_baseline(nodes)
+
+    def loop_headers(self):
+        """normalised header text of every loop of the kernel function, in source order"""
+        self._ensure_loops()
+        return [" ".join((self.loop_header(n) or "?").split()) for n in (self._loop_nodes or [])]
+
+    def align_with_baseline(self, nodes):
+        """Invariants are keyed by loop ordinal in source order.  contracts/loop_baseline.json records, per kernel, the loop
+        headers the invariants were written against; when the function's loops still line up with it (same headers, or a
+        header edited in place) the ordinals are used as they are.  When a loop was inserted, deleted or moved, the loops
+        that can still be identified keep their invariant and any other loop is a gap (exit 3) - never a neighbour's
+        invariant, which would turn a harmless reordering into a VIOLATION."""
+        base = self.load_baseline().get(self.kid)
+        if not base:
+            return None
+        cur = [" ".join((self.loop_header(n) or "?").split()) for n in nodes]
+        if cur == base:
+            return None
+        import difflib
+        remap = {}
+        for tag, i1, i2, j1, j2 in difflib.SequenceMatcher(a=base, b=cur, autojunk=False).get_opcodes():
+            if tag == "equal" or (tag == "replace" and i2 - i1 == j2 - j1):
+                for d in range(j2 - j1):
+                    remap[j1 + d] = i1 + d
+            elif tag in ("insert", "replace"):
+                for j in range(j1, j2):
+                    remap[j] = None
+        return remap
 
     def loop_header(self, node):
         """source text of a loop statement up to its body"""
